@@ -505,6 +505,7 @@ func checkC05(c *Ctx) {
 	if !reuseCheck(c, reuseSources, reuseJudgeBytes, "c01reuse") {
 		return
 	}
+	c05ClosingBreak(c)
 	c.Set("rule", "case = one sibling list (7 list kinds) with Before/After/Start/End per element printed by the real restorer; non-trivial = some EmptyLine spacing or decoration present; distinct by kind + assignment")
 }
 
@@ -532,5 +533,42 @@ func init() {
 			return out
 		}
 		return "harness: unknown list kind"
+	}
+}
+
+// c05ClosingBreak: an explicit newline decoration (or a line comment) on the decoration point between
+// the last element of an index list and the closing bracket contributes its line break there: the
+// list is split one element per line and the bracket stands on a line of its own.
+func c05ClosingBreak(c *Ctx) {
+	for _, tc := range []struct {
+		name, src, want string
+		decs            []string
+	}{
+		{"IndexListExpr.Indices newline", "package p\n\nvar x = g[e1, e2]\n", "package p\n\nvar x = g[\n\te1,\n\te2,\n]\n", []string{"\n"}},
+		{"IndexListExpr.Indices line comment", "package p\n\nvar x = g[e1, e2]\n", "package p\n\nvar x = g[\n\te1,\n\te2, // c\n]\n", []string{"// c"}},
+	} {
+		f, err := decorator.Parse(tc.src)
+		if err != nil {
+			c.Infra("closing-break source does not parse")
+			return
+		}
+		switch x := f.Decls[0].(*dst.GenDecl).Specs[0].(*dst.ValueSpec).Values[0].(type) {
+		case *dst.IndexListExpr:
+			for _, e := range x.Indices {
+				e.Decorations().Before = dst.NewLine
+			}
+			x.Decs.Indices.Replace(tc.decs...)
+		case *dst.IndexExpr:
+			x.Index.Decorations().Before = dst.NewLine
+			x.Decs.Index.Replace(tc.decs...)
+		}
+		key := "closing-break|" + tc.name
+		c.Eval(key, true)
+		out, msg := printFile(f)
+		if msg != "" {
+			c.Fail(Finding{Sig: "spacing-print-fails", Input: key, What: msg, Replay: obj{"kind": "none"}})
+		} else if out != tc.want {
+			c.Fail(Finding{Sig: "closing-break-not-rendered", Input: key, What: fmt.Sprintf("%s: printed\n%s\nexpected\n%s", tc.name, out, tc.want), Replay: obj{"kind": "none"}})
+		}
 	}
 }
